@@ -13,7 +13,7 @@ import p_pred
 
 # =============================================================================== C13
 # terms: ('N',) ('B',b) ('I',i) ('F',x) ('S',s) ('L',[..]) ('T',[..]) ('D',n) ('E',n) ('R',kind,mu,sigma) ('O',which)
-OBJECTS = ["object", "decimal", "fraction", "complex", "bytes", "range", "lambda"]
+OBJECTS = ["object", "decimal", "fraction", "complex", "bytes", "range", "lambda", "array", "array2", "memoryview", "deque", "listlike", "listlike2", "dictkeys"]
 
 
 def tok(term):
@@ -38,6 +38,25 @@ def tok(term):
 _MODELS = {}
 
 
+class _ListLike:
+    """a numpy-flavoured sequence: len, iteration, indexing, tolist() — but not a list"""
+
+    def __init__(self, xs):
+        self._xs = list(xs)
+
+    def __len__(self):
+        return len(self._xs)
+
+    def __iter__(self):
+        return iter(self._xs)
+
+    def __getitem__(self, i):
+        return self._xs[i]
+
+    def tolist(self):
+        return list(self._xs)
+
+
 def materialize(term, registry):
     k = term[0]
     if k == "N": return None
@@ -57,7 +76,11 @@ def materialize(term, registry):
     if k == "O":
         w = term[1]
         return {"object": object(), "decimal": decimal.Decimal("1.5"), "fraction": fractions.Fraction(3, 2),
-                "complex": complex(1, 1), "bytes": b"ab", "range": range(3), "lambda": (lambda: 0)}[w]
+                "complex": complex(1, 1), "bytes": b"ab", "range": range(3), "lambda": (lambda: 0),
+                # sized, iterable, indexable containers of numbers that are NOT lists (some offer .tolist()): never a valid ranks / scores / teams
+                "array": __import__("array").array("d", [1.0, 2.0, 3.0]), "array2": __import__("array").array("i", [2, 1]),
+                "memoryview": memoryview(b"\x01\x02\x03"), "deque": __import__("collections").deque([1, 2, 3]),
+                "listlike": _ListLike([2.0, 1.0, 3.0]), "listlike2": _ListLike([1, 2]), "dictkeys": {1: 0, 2: 0, 3: 0}.keys()}[w]
     raise ValueError(term)
 
 
@@ -181,7 +204,14 @@ def c13_call(res, kind, call, drv_out):
     exc = None
     try:
         if op == "rate":
-            model.rate(teams, ranks=ranks, scores=scores)
+            # every other call also carries per-call options that differ from the model's settings: a rejected call must leave the
+            # model's attributes alone whatever it was asked
+            hk = len(show(teams_t)) + len(show(ranks_t)) * 3 + len(show(scores_t)) * 7
+            if hk % 2:
+                res.count("rate_calls_with_per_call_options")
+                model.rate(teams, ranks=ranks, scores=scores, tau=(0.0, 1.5, 0.25)[hk % 3], limit_sigma=(hk % 5 != 0))
+            else:
+                model.rate(teams, ranks=ranks, scores=scores)
         else:
             getattr(model, op)(teams)
     except Exception as e:  # noqa: BLE001
@@ -310,6 +340,37 @@ def c13_shared_ids(res):
             except Exception as e:  # noqa: BLE001
                 res.fail("property", "C13: a well-formed %s call (%s) was rejected with %s: %s" % (kind, variant, type(e).__name__, e),
                          dict(type="c13shared", kind=kind, variant=variant))
+
+
+def c13_shared_ids_rejected(res):
+    """a call rejected at the ranks / scores stage whose (well-formed) teams hold distinct objects sharing one id with different values
+    (a player next to an earlier snapshot of itself; a guest account): no rating may change"""
+    for kind in KINDS:
+        m = MODEL_CLS[kind]()
+        a, b = m.rating(25.0, 8.0, "a"), m.rating(20.0, 3.0, "b")
+        snap = copy.deepcopy(a)
+        a.mu, a.sigma = 29.5, 6.25
+        g1, g2 = m.rating(31.0, 2.0, "g1"), m.rating(17.0, 4.0, "g2")
+        g1.id = g2.id = "guest"
+        flat = [a, snap, b, g1, g2]
+        for teams in ([[a], [snap], [b]], [[snap, b], [a]], [[g1], [g2, b]], [[a, g1], [snap, g2]]):
+            for kw in (dict(ranks=[1]), dict(ranks=[1, "x", 3][: len(teams)] if len(teams) == 3 else ["x", 1]), dict(scores=list(range(len(teams) + 1))),
+                       dict(ranks=list(range(len(teams))), scores=list(range(len(teams)))), dict(scores=[None] * len(teams)),
+                       dict(ranks=[1] * (len(teams) + 2), tau=0.5, limit_sigma=True)):
+                before = [(p.mu, p.sigma, p.id, p.name) for p in flat]
+                ms = model_state(m)
+                res.count("shared_id_rejected_calls")
+                try:
+                    m.rate(teams, **kw)
+                    res.fail("property", "C13: %s: malformed selector %r accepted" % (kind, sorted(kw)), dict(type="c13shared", kind=kind)); continue
+                except (TypeError, ValueError):
+                    pass
+                except Exception as e:  # noqa: BLE001
+                    res.fail("property", "C13: %s: malformed selector raised %s" % (kind, type(e).__name__), dict(type="c13shared", kind=kind)); continue
+                if [(p.mu, p.sigma, p.id, p.name) for p in flat] != before or model_state(m) != ms:
+                    res.fail("property", "C13: %s: a call rejected at the ranks/scores stage modified a rating or the model (teams with entrants sharing an id): %r -> %r" % (
+                        kind, before, [(p.mu, p.sigma, p.id, p.name) for p in flat]), dict(type="c13shared", kind=kind))
+                    return
 
 
 def c13_number_subclasses(res):
@@ -557,6 +618,7 @@ def c13_after_wellformed(res, rng):
 def c13(res):
     rng = random.Random(res.seed)
     c13_shared_ids(res)
+    c13_shared_ids_rejected(res)
     c13_after_wellformed(res, rng)
     if res.shard == 0:
         c13_number_subclasses(res)
@@ -1368,6 +1430,22 @@ def c19_special_outcomes(res, rng, fixed=None):
         res.fail("property", "C19: rate(%s=%s) is not treated alike by the five models: %r" % (mode, [repr(v)[:24] for v in vals], outs), inp)
 
 
+class _Matcher:
+    def __init__(self, verdict):
+        self.verdict = verdict
+
+    def __eq__(self, other):
+        return self.verdict
+
+    def __ne__(self, other):
+        return not self.verdict
+
+    __hash__ = None
+
+
+_ANY, _NEVER = _Matcher(True), _Matcher(False)
+
+
 def c19_rating_rules(res, rng):
     for it_ in range(96):
         m, s = rng.gauss(25, 8), rng.uniform(0, 9)
@@ -1381,6 +1459,7 @@ def c19_rating_rules(res, rng):
         for k in KINDS:
             R = RATING_CLS[k]
             a, b = R(m, s, "n"), R(m2, s2)
+            a.history = [1, 2]                       # an application attribute hung on the rating
             c = copy.deepcopy(a)
             A = core.account_class(R)
             u = A("acc", "eu", m, s)
@@ -1395,7 +1474,10 @@ def c19_rating_rules(res, rng):
                        (c.mu, c.sigma, c.name) == (a.mu, a.sigma, a.name), c.id == a.id, c is not a, hash(c) == hash(a),
                        # a user's subclass of the rating class: what a copy of it is, how it compares, whether rate takes it
                        type(cu) is R, type(cu).__name__ == "Account", (cu.mu, cu.sigma, cu.name, cu.id) == (u.mu, u.sigma, u.name, u.id),
-                       u == a, (u < b, u <= b, b > u, b >= u), sub_rate)
+                       u == a, (u < b, u <= b, b > u, b >= u), sub_rate,
+                       # what a copy does with an attribute the application added; == / != against an object that claims to equal everything
+                       hasattr(c, "history"), getattr(c, "history", None) is a.history, (a == _ANY, a != _ANY, _ANY == a, [a].count(_ANY), a in [_ANY]),
+                       (a == _NEVER, a != _NEVER))
         res.count("rating_rule_rows")
         if len(set(rows.values())) != 1:
             res.fail("property", "C19: rating classes compare/hash/copy by different rules: %r" % rows, dict(type="c19rules"))
